@@ -61,9 +61,15 @@ theorem mkAttr_decl {d : AttrDecl} {a : Attr} (h : mkAttr d = .ok a) (hu : a.und
     · rename_i hk
       cases hcore
       simp only [beq_iff_eq] at hk
-      cases k <;> cases ty <;>
-        simp [mkAttrCore, Attr.decl, Attr.declValue, AttrDecl.isFinal, inst, ite_some_true] at hk ⊢ <;>
-        rcases f with _ | _ | _ <;> simp
+      -- the type after `initialize` accepts undef when the attribute is given_or_derived
+      generalize hty : (if (k == Kind.givenOrDerived && !inst ty Val.undef) = true then Ty.opt ty else ty) = ty'
+      have hgod : (k == Kind.givenOrDerived && !inst ty' Val.undef) = false := by
+        by_cases hc : (k == Kind.givenOrDerived && !inst ty Val.undef) = true
+        · rw [if_pos hc] at hty; subst hty; simp [inst]
+        · rw [if_neg hc] at hty; subst hty; simpa using hc
+      clear hty hu h
+      cases ty' <;> simp only [mkAttrCore, Attr.decl, Attr.declValue, hgod] <;>
+        cases k <;> simp [AttrDecl.isFinal, ite_some_true] at hk hgod ⊢ <;> rcases f with _ | _ | _ <;> simp
 
 /-! ### `defineAttrs` as a pointwise relation -/
 
